@@ -12,6 +12,7 @@ from ..world import find_method, find_message
 from . import c09, c07
 
 ID = "C06"
+UNKNOWN_REPLY_FIELDS = True      # REST replies of a NEWER server (a field this client does not know) must decode all the same
 HDR = "x-goog-request-params"
 
 PROFILE = grammar.profile(
